@@ -375,6 +375,81 @@ def run(ck, ctx):
                                                                {"X": P4.of(gramz)})), outs["AirN"],
                   "CphotAng.valid_arrays", P4.show(P4.of(stored(outs["AirN"])))[:200])
             n_f += 6
+            # ---- R06.8 the validity filter drops exactly the steps that cannot contribute
+            import itertools
+            from ..facets.poly import eval_formula
+            from ..facets.pred import Pred
+            zsave = I.res(loc["zsave"], K.st)
+            zmax = I.res(I.load_attr(K.obj, "zmax", K.st, None, None), K.st)
+            want_n = P4.ref("1 + 0.000296*(X/1032.9414)*(273.2/(204 + 0.091*X))", {"X": P4.of(gramz)})
+            want_rn = P3.ref("0.31/sqrt(y)*exp(t*(1 - 1.5*log(s)))", e3)
+            want_e2 = P3.ref("1150 + 454*log(s)", e3)
+
+            def role_of(x):
+                if x is None:
+                    return None
+                if g.same(x, zmax):
+                    return ("zmax",)
+                if x.op == "Const" and isinstance(x.attr, (int, float)) and not isinstance(x.attr, bool):
+                    return ("const", float(x.attr))
+                c = _strip_cast(x)
+                if c.op == "Const" and isinstance(c.attr, (int, float)) and not isinstance(c.attr, bool):
+                    return ("const", float(c.attr))
+                if g.same(x, zsave):
+                    return ("z",)
+                if g.same(x, zmax) or g.same(c, _strip_cast(zmax)):
+                    return ("zmax",)
+                try:
+                    if P4.equal(_bare(P4.of(x)), want_n):
+                        return ("n",)
+                    if x.id in s_ids or P2.equal(_bare(P2.of(x)), want_s):
+                        return ("s",)
+                    if P3.equal(_bare(P3.of(x)), want_rn):
+                        return ("RN",)
+                    if P3.equal(_bare(P3.of(x)), want_e2):
+                        return ("e2",)
+                except Exception:        # noqa: BLE001
+                    return None
+                return None
+            mask_node = next(o.args[1] for o in outs.values() if o.op == "Subscript")
+            prm = Pred(I)
+            fm = prm.formula(I.res(mask_node, K.st))
+            canon, bad_atoms = {}, []
+            for key in prm.atoms_of(fm):
+                kind, a_, b_ = prm.atoms[key]
+                ra, rb = role_of(a_), role_of(b_)
+                ck_ = None
+                if kind == "eq" and ra and rb:
+                    pair = {ra, rb}
+                    if ("n",) in pair and ("const", 1.0) in pair:
+                        ck_ = "n==1"
+                    elif ("n",) in pair and ("const", 0.0) in pair:
+                        ck_ = "n==0"
+                elif kind == "lt" and ra and rb:
+                    ck_ = {(("RN",), ("const", 1.0)): "RN<1", (("const", 1.0), ("s",)): "1<s",
+                           (("const", 0.0), ("e2",)): "0<e2", (("zmax",), ("z",)): "zmax<z"}.get((ra, rb))
+                if ck_ is None:
+                    bad_atoms.append(prm.show_atom(key)[:120])
+                canon[key] = ck_
+            ck.ob("R06.8", "the validity filter is built from the model's exact tests only (z <= zmax, n != 1, n != 0, "
+                  "N < 1, s > 1, scale <= 0)", not bad_atoms, mask_node, "CphotAng.valid_arrays",
+                  "tests outside that set: " + "; ".join(bad_atoms[:3]) if bad_atoms else f"{len(canon)} test(s)",
+                  construct="CphotAng.valid_arrays: validity test outside the model's exact comparisons")
+            if not bad_atoms:
+                names = ["zmax<z", "n==1", "n==0", "RN<1", "1<s", "0<e2"]
+                ref = ("and", ("not", ("atom", "zmax<z")), ("not", ("atom", "n==1")), ("not", ("atom", "n==0")),
+                       ("not", ("and", ("atom", "RN<1"), ("atom", "1<s"))), ("atom", "0<e2"))
+                diff = None
+                for combo in itertools.product((True, False), repeat=len(names)):
+                    asg = dict(zip(names, combo))
+                    v_code = eval_formula(fm, {k_: asg[c_] for k_, c_ in canon.items()})
+                    v_ref = eval_formula(ref, asg)
+                    if v_code is not v_ref:
+                        diff = asg
+                        break
+                ck.ob("R06.8", "a step is kept exactly when z <= zmax, n is neither 1 nor 0, the shower has not died "
+                      "(not (N < 1 and s > 1)) and the Hillas scale is positive", diff is None, mask_node,
+                      "CphotAng.valid_arrays", f"differs for {diff}" if diff else "64 rows of the truth table agree")
         ecrit_v = I.res(I.load_attr(K.obj, "ecrit", K.st, None, None), K.st)
         Pe = PolyFacet(I)
         cz = Pe.of(ecrit_v).rat.is_const()
